@@ -234,7 +234,33 @@ IaLoop(f, g, ks, j, shift, find, repl) ==
       LET x == IaFix(s.rem, find, repl, Len(find)) IN
       IaLoop(SetPt(f, key, Pt(s.add, x.rem)), g, ks, j + 1, shift, x.find, x.repl)
 
-CPIAdd(t, f, u, g) == << t \o u, IaLoop(f, g, SortedSeq(DOMAIN g), 1, Len(t), << >>, << >>) >>
+\* the incoming settings objects are cloned (fresh identities: id + off), so that objects shared between the operands
+\* (a copy of self, or self) are never mixed up when the seams are merged
+RenameTab(g, off) == [k \in DOMAIN g |-> Pt([i \in DOMAIN g[k].add |-> <<g[k].add[i][1] + off, g[k].add[i][2]>>],
+                                            [i \in DOMAIN g[k].rem |-> <<g[k].rem[i][1] + off, g[k].rem[i][2]>>])]
+MaxInst(f) == LET S == UNION {{f[k].add[i][1] : i \in DOMAIN f[k].add} \cup {f[k].rem[i][1] : i \in DOMAIN f[k].rem} : k \in DOMAIN f}
+              IN IF S = {} THEN 0 ELSE CHOOSE x \in S : \A y \in S : y <= x
+CPIAdd(t, f, u, g) ==
+  LET off == MaxInst(f) + MaxInst(g) + 1
+      g2 == RenameTab(g, off)
+  IN << t \o u, IaLoop(f, g2, SortedSeq(DOMAIN g2), 1, Len(t), << >>, << >>) >>
+
+\* canonical instance numbering (first occurrence, keys ascending, add before rem): tables equal up to renaming of objects
+RECURSIVE CanonWalk(_, _, _, _)
+CanonWalk(f, ks, j, seen) ==       \* seen: sequence of instance ids in order of first occurrence
+  IF j > Len(ks) THEN seen
+  ELSE LET p == f[ks[j]]
+           ids == [i \in DOMAIN p.add |-> p.add[i][1]] \o [i \in DOMAIN p.rem |-> p.rem[i][1]]
+           RECURSIVE AddNew(_, _)
+           AddNew(sn, i) == IF i > Len(ids) THEN sn
+                            ELSE AddNew(IF \E q \in DOMAIN sn : sn[q] = ids[i] THEN sn ELSE sn \o <<ids[i]>>, i + 1)
+       IN CanonWalk(f, ks, j + 1, AddNew(seen, 1))
+CanonTab(f) ==
+  LET order == CanonWalk(f, SortedSeq(DOMAIN f), 1, << >>)
+      CanonNo(x) == CHOOSE q \in DOMAIN order : order[q] = x
+  IN [k \in DOMAIN f |-> Pt([i \in DOMAIN f[k].add |-> <<CanonNo(f[k].add[i][1]), f[k].add[i][2]>>],
+                            [i \in DOMAIN f[k].rem |-> <<CanonNo(f[k].rem[i][1]), f[k].rem[i][2]>>])]
+SameTab(f, g) == CanonTab(f) = CanonTab(g)
 
 ---------------------------------------------------------------------------
 \* _shift_settings_idx(num, keep_origin)
@@ -352,7 +378,7 @@ DriftClauses(e, pre, post) ==
     [] e.op \in {"add", "iadd"} /\ HasResult(e) /\ HasTab(pre[e.a.other]) ->
          LET w == ResultOf(e, post) u == pre[e.a.other]
              g == CPIAdd(v.t, f, u.t, TabOf(u.f))
-         IN Cl("drift.iadd", f # EmptyTab \/ u.f # << >>, w.t = g[1] /\ TabOf(w.f) = g[2])
+         IN Cl("drift.iadd", f # EmptyTab \/ u.f # << >>, w.t = g[1] /\ SameTab(TabOf(w.f), g[2]))
     [] e.op = "pad" /\ HasResult(e) /\ Len(e.a.fill) = 1 /\ e.a.m \in {"ljust", "rjust", "center"} ->
          LET w == ResultOf(e, post)
              g == CPPad(v.t, f, e.a.m, e.a.width, e.a.fill[1], e.a.extend = 1)
